@@ -373,6 +373,22 @@ class NPs:
     def full(shape, v, dtype=None):
         return NDB(shape, v)
 
+    @staticmethod
+    def dot(a, b):
+        """inner product of two 1-D integer arrays of equal concrete length (same word arithmetic as the scalar loop)"""
+        if not (isinstance(a, NDB) and isinstance(b, NDB) and a.ndim == 1 and b.ndim == 1):
+            raise symex.Unsupported('np.dot of %s, %s' % (type(a).__name__, type(b).__name__))
+        n, m = a.shape[0], b.shape[0]
+        if not (isinstance(n, int) and isinstance(m, int)):
+            raise symex.Unsupported('np.dot of arrays of symbolic length')
+        if n != m:
+            raise ValueError('shapes (%d,) and (%d,) not aligned' % (n, m))
+        ga, gb = a.snapshot(), b.snapshot()
+        r = z3.BitVecVal(0, WID)
+        for i in range(n):
+            r = r + ga((z3.IntVal(i),)) * gb((z3.IntVal(i),))
+        return mk(r)
+
 
 class Warn:
     @staticmethod
@@ -430,6 +446,8 @@ def programs(tier):
     add('v2 diff3 history across blocks', dict(nmean=0, blocksize=2), lambda: [('diff', 1, 2, _res('a', 2, 2)), ('diff', 3, 1, _res('b', 2, 1)), ('diff', 2, 1, _res('c', 2, 1)), ('quit',)])
     add('v2 qlpc maxnlpc4 nmean2 history>3', dict(maxnlpc=4, nmean=2, blocksize=4), lambda: [('diff', 0, 3, _res_mixed('a', 4, 3, 2)), ('qlpc', 1, [17, -6], _res_mixed('b', 4, 1, 2)), ('quit',)])
     add('v1 qlpc nmean0', dict(version=1, maxnlpc=2, nmean=0), lambda: [('diff', 1, 2, _res('a', 3, 2)), ('qlpc', 1, [12, 3], _res('b', 3, 1)), ('quit',)])
+    add('v2 qlpc order 2 then 1 (2 channels)', dict(nchan=2, maxnlpc=2, nmean=0, blocksize=2),
+        lambda: [('qlpc', 1, [11, -5], _res('a', 2, 1)), ('qlpc', 1, [7], _res('b', 2, 1)), ('qlpc', 1, [-3], _res('c', 2, 1)), ('diff', 1, 1, _res('d', 2, 1)), ('quit',)])
     if tier == 'thorough':
         add('v2 qlpc3 nmean4', dict(maxnlpc=3, nmean=4, blocksize=3), lambda: [('diff', 2, 2, _res('a', 3, 2)), ('qlpc', 1, [25, -14, 4], _res('b', 3, 1)), ('qlpc', 1, [-7], _res('c', 3, 1)), ('quit',)])
         add('v2 2ch qlpc bitshift', dict(nchan=2, maxnlpc=1, nmean=1, blocksize=2), lambda: [('bitshift', 1), ('diff', 1, 1, _res('a', 2, 1)), ('qlpc', 1, [9], _res('b', 2, 1)),
